@@ -343,3 +343,350 @@ Proof.
   - unfold close_pc in H. destruct (p_closed p); inversion H; subst; auto.
     destruct I. constructor; cbn; auto; discriminate.
 Qed.
+
+(* ---------- reachable states ---------- *)
+
+Lemma op1_pc : forall s, n_pc (fst (op1 s)) = n_pc s.
+Proof.
+  intro s. unfold op1. destruct (nn_op false s) as [[s1 f1] oe] eqn:E. cbn.
+  eapply nn_op_pc; eauto.
+Qed.
+
+Lemma nstep_pc : forall s o sched,
+  n_pc (fst (fst (nstep s o sched))) = fst (fst (step (n_pc s) o)).
+Proof.
+  intros s o sched. unfold nstep. destruct (step (n_pc s) o) as [[p' out] fx]. rewrite drain_spec.
+  destruct (fx_triggers fx); cbn; auto.
+  match goal with |- context [op1 ?x] => pose proof (op1_pc x) as Hp; destruct (op1 x) end.
+  cbn in *. exact Hp.
+Qed.
+
+Lemma nstep_inv : forall s o sched, Inv (n_pc s) -> Inv (n_pc (fst (fst (nstep s o sched)))).
+Proof.
+  intros s o sched I. rewrite nstep_pc.
+  destruct (step (n_pc s) o) as [[p' out] fx] eqn:E. cbn. eapply step_inv; eauto.
+Qed.
+
+Lemma nrun_inv : forall h s, Inv (n_pc s) -> Inv (n_pc (fst (nrun s h))).
+Proof.
+  induction h as [|[o sched] r IH]; intros s I; cbn [nrun]; auto.
+  pose proof (nstep_inv s o sched I) as I1.
+  destruct (nstep s o sched) as [[s1 out] fs]. cbn in I1.
+  specialize (IH s1 I1). destruct (nrun s1 r). cbn in *. exact IH.
+Qed.
+
+Lemma reachable_inv : forall a h, Inv (n_pc (fst (nrun (nn_init a) h))).
+Proof. intros. apply nrun_inv. apply Inv_init. Qed.
+
+(* ---------- checkNegotiationNeeded on reachable states ---------- *)
+
+Lemma check_tcv_ok : forall ld r t, exists v, check_tcv ld (Some r) t = Ok v.
+Proof.
+  intros ld r t. unfold check_tcv.
+  destruct (get_by_mid (t_mid t) (d_secs ld)) as [m|]; [|eauto].
+  destruct (match t_dir t with Sendrecv | Sendonly => true | _ => false end).
+  - destruct (t_sender t) as [s|]; [|eauto].
+    destruct (sender_track s) as [tr|]; [|eauto].
+    destruct (attr_lookup "msid" (sc_attrs m)) as [v|]; [|eauto].
+    destruct (String.eqb v _); [|eauto].
+    destruct (d_type ld).
+    + destruct (get_by_mid (t_mid t) (d_secs r)); [|eauto].
+      destruct (_ && _); eauto.
+    + destruct (odir_eqb _ _); eauto.
+  - destruct (d_type ld).
+    + destruct (get_by_mid (t_mid t) (d_secs r)); [|eauto].
+      destruct (_ && _); eauto.
+    + destruct (odir_eqb _ _); eauto.
+Qed.
+
+Lemma check_tcvs_ok : forall ld r l, exists b, check_tcvs ld (Some r) l = Ok b.
+Proof.
+  induction l as [|t l IH]; cbn; eauto.
+  destruct (check_tcv_ok ld r t) as [v ->]. destruct v; eauto.
+Qed.
+
+Lemma check_never_panics : forall p, Inv p -> exists b, check_negotiation_needed p = Ok b.
+Proof.
+  intros p I. unfold check_negotiation_needed.
+  destruct (p_cur_local p) as [ld|] eqn:E; [|eauto].
+  destruct (_ && _); [eauto|].
+  destruct (p_cur_remote p) as [r|] eqn:R.
+  - apply check_tcvs_ok.
+  - exfalso. apply (inv_cur p I); congruence.
+Qed.
+
+Lemma check_tcvs_needed : forall ld r l1 t l2,
+  check_tcv ld (Some r) t = Ok Needed -> check_tcvs ld (Some r) (l1 ++ t :: l2) = Ok true.
+Proof.
+  induction l1 as [|x l1 IH]; intros t l2 H; cbn.
+  - now rewrite H.
+  - destruct (check_tcv_ok ld r x) as [v ->]. destruct v; auto.
+Qed.
+
+Lemma get_by_mid_empty : forall l, Forall sec_has_mid l -> get_by_mid "" l = None.
+Proof.
+  induction 1 as [|s l [m [Hm Hne]] _ IH]; cbn; auto.
+  rewrite Hm. destruct (String.eqb m "") eqn:E; auto. apply String.eqb_eq in E. congruence.
+Qed.
+
+(* a transceiver that is not in the current local description, or carries a
+   track the description does not announce, needs negotiation *)
+Lemma check_with_needed_tcv : forall p l1 t l2,
+  Inv p -> p_tcvs p = (l1 ++ t :: l2)%list ->
+  (forall ld r, p_cur_local p = Some ld -> p_cur_remote p = Some r -> check_tcv ld (Some r) t = Ok Needed) ->
+  check_negotiation_needed p = Ok true.
+Proof.
+  intros p l1 t l2 I Hl Ht. unfold check_negotiation_needed.
+  destruct (p_cur_local p) as [ld|] eqn:E; auto.
+  destruct (_ && _); auto.
+  destruct (p_cur_remote p) as [r|] eqn:R.
+  - rewrite Hl. apply check_tcvs_needed. now apply Ht.
+  - exfalso. apply (inv_cur p I); congruence.
+Qed.
+
+Lemma check_tcv_no_mid : forall ld rd t, desc_wf ld -> t_mid t = "" -> check_tcv ld rd t = Ok Needed.
+Proof. intros ld rd t W M. unfold check_tcv. rewrite M, get_by_mid_empty; auto. Qed.
+
+(* ---------- firing after a change ---------- *)
+
+Definition the_firing : firing := {| f_sig := Stable; f_closed := false |}.
+
+Lemma op1_fires : forall s,
+  p_closed (n_pc s) = false -> p_sig (n_pc s) = Stable -> n_flag s = false ->
+  check_negotiation_needed (n_pc s) = Ok true ->
+  snd (op1 s) = [the_firing] /\ n_flag (fst (op1 s)) = true.
+Proof.
+  intros s Hc Hs Hf Hk. unfold op1, nn_op. rewrite Hc, Hs, Hk, Hf. cbn. rewrite ?Hs, ?Hc. auto.
+Qed.
+
+(* the transceiver AddTrack would reuse *)
+Fixpoint reused_tcv (l : list tcv) (k : kind) : option tcv :=
+  match l with
+  | [] => None
+  | t :: r => if is_send_allowed t k then Some t else reused_tcv r k
+  end.
+
+(* ... and whether the current local description already announces this very
+   track on that transceiver's m-section *)
+Definition readvertised (p : pc) (k : kind) (i : encin) : bool :=
+  match reused_tcv (p_tcvs p) k, p_cur_local p with
+  | Some t, Some ld =>
+      match get_by_mid (t_mid t) (d_secs ld) with
+      | Some m =>
+          match attr_lookup "msid" (sc_attrs m) with
+          | Some v => String.eqb v (k_stream (i_trk i) ++ " " ++ k_id (i_trk i))
+          | None => false
+          end
+      | None => false
+      end
+  | _, _ => false
+  end.
+
+Lemma add_track_reuse_spec : forall l k i l',
+  add_track_reuse l k i = Some l' ->
+  exists l1 t l2 d,
+    l = (l1 ++ t :: l2)%list /\ reused_tcv l k = Some t
+    /\ l' = (l1 ++ tcv_with_dir (tcv_with_sender t (Some (new_sender i))) d :: l2)%list
+    /\ (d = Sendrecv \/ d = Sendonly).
+Proof.
+  induction l as [|t r IH]; intros k i l' H; cbn in H; [discriminate|].
+  cbn [reused_tcv]. destruct (is_send_allowed t k) eqn:A.
+  - destruct (t_dir t); inversion H; subst;
+      [exists [], t, r, Sendrecv|exists [], t, r, Sendonly|exists [], t, r, Sendrecv|exists [], t, r, Sendonly];
+      repeat split; auto.
+  - destruct (add_track_reuse r k i) as [r'|] eqn:R; [|discriminate].
+    inversion H; subst. destruct (IH _ _ _ R) as [l1 [t0 [l2 [d [-> [Hr [-> Hd]]]]]]].
+    exists (t :: l1), t0, l2, d. repeat split; auto.
+Qed.
+
+(* the calls the property names as changes that require renegotiation, with the
+   premise each needs to really require it *)
+Definition change_op (p : pc) (o : op) : Prop :=
+  match o with
+  | OAddTcvKind _ _ _ | OAddTcvTrack _ _ _ => True
+  | OAddTrack k i => readvertised p k i = false
+  | OCreateDC =>
+      p_dcs p = 0%N
+      /\ match p_cur_local p with Some ld => have_data_channel (d_secs ld) = false | None => True end
+  | _ => False
+  end.
+
+Lemma step_change_needed : forall p o p' out fx,
+  Inv p -> change_op p o -> step p o = (p', out, fx) -> o_status out = "ok" ->
+  fx = fx_one /\ p_sig p' = p_sig p /\ p_closed p' = p_closed p
+  /\ check_negotiation_needed p' = Ok true.
+Proof.
+  intros p o p' out fx I C H Hok.
+  assert (Happ : forall t, t_mid t = "" ->
+                 check_negotiation_needed (pc_with_tcvs p (p_tcvs p ++ [t])) = Ok true).
+  { intros t Hm. eapply (check_with_needed_tcv _ (p_tcvs p) t []).
+    - eapply Inv_ext; [|exact I]. reflexivity.
+    - reflexivity.
+    - cbn. intros ld r Hl _. apply check_tcv_no_mid; auto.
+      pose proof (inv_wf_cur p I) as W. rewrite Hl in W. exact W. }
+  destruct o; cbn [step change_op] in *; try contradiction.
+  - (* AddTrack *)
+    unfold add_track in H. destruct (p_closed p) eqn:Ec; [inversion H; subst; discriminate|].
+    destruct (add_track_reuse (p_tcvs p) k i) as [l'|] eqn:R; inversion H; subst; clear H.
+    + split; [reflexivity|]. split; [reflexivity|]. split; [cbn; congruence|].
+      destruct (add_track_reuse_spec _ _ _ _ R) as [l1 [t [l2 [d [Hl [Hr [-> Hd]]]]]]].
+      eapply (check_with_needed_tcv _ l1 _ l2).
+      * eapply Inv_ext; [|exact I]. reflexivity.
+      * reflexivity.
+      * cbn. intros ld r Hld _. unfold readvertised in C. rewrite Hr, Hld in C.
+        unfold check_tcv. cbn.
+        destruct (get_by_mid (t_mid t) (d_secs ld)) as [m|]; auto.
+        assert (Hs : match d with Sendrecv | Sendonly => true | _ => false end = true)
+          by (destruct Hd; subst; auto).
+        rewrite Hs. destruct (attr_lookup "msid" (sc_attrs m)) as [v|]; auto.
+        cbn in C. rewrite C. reflexivity.
+    + split; [reflexivity|]. split; [reflexivity|]. split; [cbn; congruence|]. apply Happ. reflexivity.
+  - (* AddTransceiverFromKind *)
+    unfold add_tcv_kind in H. destruct (p_closed p) eqn:Ec; [inversion H; subst; discriminate|].
+    destruct d as [[| | |]|]; inversion H; subst; try discriminate;
+      (split; [reflexivity|]; split; [reflexivity|]; split; [cbn; congruence|]; apply Happ; reflexivity).
+  - (* AddTransceiverFromTrack *)
+    unfold add_tcv_track in H. destruct (p_closed p) eqn:Ec; [inversion H; subst; discriminate|].
+    destruct d as [[| | |]|]; inversion H; subst; try discriminate;
+      (split; [reflexivity|]; split; [reflexivity|]; split; [cbn; congruence|]; apply Happ; reflexivity).
+  - (* CreateDataChannel *)
+    unfold create_data_channel in H. destruct (p_closed p) eqn:Ec; [inversion H; subst; discriminate|].
+    inversion H; subst. split; [reflexivity|]. split; [reflexivity|]. split; [cbn; congruence|].
+    unfold check_negotiation_needed. cbn. destruct C as [C0 C1].
+    destruct (p_cur_local p) as [ld|]; auto. rewrite C0, C1. reflexivity.
+Qed.
+
+Lemma fires_after_change : forall s o sched s' out fs,
+  Inv (n_pc s) -> p_sig (n_pc s) = Stable -> p_closed (n_pc s) = false -> n_flag s = false ->
+  change_op (n_pc s) o ->
+  nstep s o sched = (s', out, fs) -> o_status out = "ok" ->
+  fs = [the_firing] /\ n_flag s' = true.
+Proof.
+  intros s o sched s' out fs I Hs Hc Hf C H Hok. unfold nstep in H.
+  destruct (step (n_pc s) o) as [[p' out'] fx] eqn:E.
+  rewrite drain_spec in H.
+  assert (out' = out).
+  { destruct (fx_triggers fx); [inversion H; auto|].
+    match type of H with (let (_, _) := op1 ?x in _) = _ => destruct (op1 x) end. inversion H; auto. }
+  subst out'.
+  destruct (step_change_needed _ _ _ _ _ I C E Hok) as [-> [Hs' [Hc' Hk]]].
+  cbn [fx_triggers fx_one fx_to_stable] in H.
+  match type of H with (let (_, _) := op1 ?x in _) = _ =>
+    destruct (op1_fires x) as [F1 F2]; cbn; try congruence; destruct (op1 x) end.
+  cbn in *. inversion H; subst. auto.
+Qed.
+
+(* ---------- no second firing while the flag is set ---------- *)
+
+Lemma op1_flag_set : forall s, n_flag s = true -> snd (op1 s) = [].
+Proof.
+  intros s Hf. unfold op1, nn_op.
+  destruct (p_closed (n_pc s)); auto. cbn.
+  destruct (negb (sig_eqb (p_sig (n_pc s)) Stable)); auto.
+  destruct (check_negotiation_needed (n_pc s)) as [[|]|e|]; auto.
+  rewrite Hf. reflexivity.
+Qed.
+
+Lemma op1_flag_kept : forall s, n_flag s = true ->
+  check_negotiation_needed (n_pc s) = Ok true -> n_flag (fst (op1 s)) = true.
+Proof.
+  intros s Hf Hk. unfold op1, nn_op.
+  destruct (p_closed (n_pc s)); auto. cbn.
+  destruct (negb (sig_eqb (p_sig (n_pc s)) Stable)); auto.
+  rewrite Hk, Hf. auto.
+Qed.
+
+Lemma nstep_flag_set : forall s o sched,
+  n_flag s = true -> fx_to_stable (snd (step (n_pc s) o)) = false ->
+  snd (nstep s o sched) = []
+  /\ (check_negotiation_needed (n_pc (fst (fst (nstep s o sched)))) = Ok true ->
+      n_flag (fst (fst (nstep s o sched))) = true).
+Proof.
+  intros s o sched Hf Hst. pose proof (nstep_pc s o sched) as Hp. unfold nstep in *.
+  destruct (step (n_pc s) o) as [[p' out] fx]. cbn in Hst. rewrite Hst in *.
+  rewrite drain_spec in *. destruct (fx_triggers fx).
+  - cbn. auto.
+  - match goal with |- context [op1 ?x] =>
+      pose proof (op1_flag_set x Hf) as F1; pose proof (op1_flag_kept x Hf) as F2;
+      pose proof (op1_pc x) as F3; destruct (op1 x) as [s2 f2] end.
+    cbn in *. split; auto. intro Hk. apply F2. now rewrite <- F3.
+Qed.
+
+(* a stretch of calls during which no exchange completes and negotiation stays needed *)
+Fixpoint still_needed (s : nn) (h : list (op * list bool)) : Prop :=
+  match h with
+  | [] => True
+  | (o, sched) :: r =>
+      fx_to_stable (snd (step (n_pc s) o)) = false
+      /\ check_negotiation_needed (n_pc (fst (fst (nstep s o sched)))) = Ok true
+      /\ still_needed (fst (fst (nstep s o sched))) r
+  end.
+
+Lemma no_refire : forall h s,
+  n_flag s = true -> still_needed s h -> Forall (fun fs => fs = []) (snd (nrun s h)).
+Proof.
+  induction h as [|[o sched] r IH]; intros s Hf Hn; cbn [nrun]; [constructor|].
+  destruct Hn as [H1 [H2 H3]].
+  destruct (nstep_flag_set s o sched Hf H1) as [F1 F2].
+  destruct (nstep s o sched) as [[s1 out] fs]. cbn in *.
+  specialize (IH s1 (F2 H2) H3). destruct (nrun s1 r). cbn in *. constructor; auto.
+Qed.
+
+Lemma firing_sets_flag : forall s o sched s' out fs,
+  nstep s o sched = (s', out, fs) -> fs <> [] -> n_flag s' = true.
+Proof.
+  intros s o sched s' out fs H Hne. unfold nstep in H.
+  destruct (step (n_pc s) o) as [[p' out'] fx]. rewrite drain_spec in H.
+  destruct (fx_triggers fx); [inversion H; subst; congruence|].
+  unfold op1, nn_op in H. cbn [n_pc n_flag n_panicked] in H.
+  destruct (p_closed p'); [inversion H; subst; congruence|]. cbn in H.
+  destruct (negb (sig_eqb (p_sig p') Stable)); [inversion H; subst; congruence|].
+  destruct (check_negotiation_needed p') as [[|]|e|]; try (inversion H; subst; congruence).
+  destruct (if fx_to_stable fx then false else n_flag s); inversion H; subst; auto; congruence.
+Qed.
+
+(* ---------- witnesses against the unguarded sentences ---------- *)
+
+Definition w_enc (ssrc : N) : encin :=
+  {| i_trk := {| k_id := "ta"; k_stream := "s1"; k_rid := "" |}; i_ssrc := ssrc; i_rtx := 0; i_fec := 0 |}.
+Definition w_engine : engine :=
+  {| rtx_audio := false; rtx_video := false; fec_audio := false; fec_video := false |}.
+Definition w_answer (d : dir) : op :=
+  OSetRemote TAnswer [{| sc_mid := Some "0"; sc_media := MVideo; sc_dir := Some d; sc_attrs := [] |}] w_engine.
+Definition nosched (l : list op) : list (op * list bool) := map (fun o => (o, [])) l.
+
+Fixpoint stable_marks (s : nn) (h : list (op * list bool)) : list bool :=
+  match h with
+  | [] => []
+  | (o, sched) :: r =>
+      fx_to_stable (snd (step (n_pc s) o)) :: stable_marks (fst (fst (nstep s o sched))) r
+  end.
+Definition fire_counts (s : nn) (h : list (op * list bool)) : list nat :=
+  map (@List.length firing) (snd (nrun s h)).
+
+(* the remote answers "inactive": RemoveTrack fires; adding the same track again
+   withdraws the need (flag cleared, nothing fires); RemoveTrack fires again --
+   two firings and no completed exchange in between *)
+Definition refire_history : list (op * list bool) :=
+  nosched [OAddTrack Video (w_enc 1); OCreateOffer; OSetLocal TOffer; w_answer Inactive;
+           ORemoveTrack 0; OAddTrack Video (w_enc 2); ORemoveTrack 0].
+
+Lemma refire_witness :
+  fire_counts (nn_init false) refire_history = [1; 0; 0; 0; 1; 0; 1]
+  /\ stable_marks (nn_init false) refire_history = [false; false; false; true; false; false; false].
+Proof. split; vm_compute; reflexivity. Qed.
+
+(* the remote answers "sendonly": RemoveTrack does not fire (the effective
+   direction was already recvonly) and AddTrack of the same track, reusing the
+   transceiver, does not fire either: the local description already says
+   sendrecv with this msid *)
+Definition nofire_prefix : list (op * list bool) :=
+  nosched [OAddTrack Video (w_enc 1); OCreateOffer; OSetLocal TOffer; w_answer Sendonly; ORemoveTrack 0].
+
+Lemma nofire_witness :
+  let s := fst (nrun (nn_init false) nofire_prefix) in
+  p_sig (n_pc s) = Stable /\ p_closed (n_pc s) = false /\ n_flag s = false
+  /\ add_track_reuse (p_tcvs (n_pc s)) Video (w_enc 2) <> None
+  /\ o_status (snd (fst (nstep s (OAddTrack Video (w_enc 2)) []))) = "ok"
+  /\ snd (nstep s (OAddTrack Video (w_enc 2)) []) = [].
+Proof. vm_compute. repeat split; congruence. Qed.
